@@ -28,6 +28,7 @@ package main
 // arrays long/short/longer); all of them run through (1) and (2).
 
 import (
+	"bytes"
 	"errors"
 	"fmt"
 	"math/rand/v2"
@@ -47,15 +48,28 @@ func init() { register("C14", runC14) }
 const c14Workers = 16
 const c14Batch = 250
 
-// option word: bit 0 UnmarshalArrayFromAnyLength, bit 1 AllowDuplicateNames (as in `arsh unm <o>`).
-var c14OptsTab = [4][]json.Options{
-	nil,
-	{jsonv1.UnmarshalArrayFromAnyLength(true)},
-	{jsontext.AllowDuplicateNames(true)},
-	{jsonv1.UnmarshalArrayFromAnyLength(true), jsontext.AllowDuplicateNames(true)},
-}
+// option word: bit 0 UnmarshalArrayFromAnyLength, bit 1 AllowDuplicateNames (as in `arsh unm <o>`),
+// bit 2 FormatByteArrayAsArray (only on cases whose type is outside the model), bit 3 (internal)
+// ExperimentalSupportFormatTag for types with format tags.
+var c14OptsTab = func() (tab [16][]json.Options) {
+	for o := range tab {
+		if o&1 != 0 {
+			tab[o] = append(tab[o], jsonv1.UnmarshalArrayFromAnyLength(true))
+		}
+		if o&2 != 0 {
+			tab[o] = append(tab[o], jsontext.AllowDuplicateNames(true))
+		}
+		if o&4 != 0 {
+			tab[o] = append(tab[o], jsonv1.FormatByteArrayAsArray(true))
+		}
+		if o&8 != 0 {
+			tab[o] = append(tab[o], json.ExperimentalSupportFormatTag(true))
+		}
+	}
+	return
+}()
 
-func c14Opts(o int) []json.Options { return c14OptsTab[o&3] }
+func c14Opts(o int) []json.Options { return c14OptsTab[o&15] }
 
 // c14ErrClass classifies an Unmarshal error without looking at message text:
 // dup | range | numsyntax | semantic (any other SemanticError) | syntax | other.
@@ -137,6 +151,9 @@ type c14Case struct {
 	trees  []string
 	clause *c14Clause
 	dup    bool     // AllowDuplicateNames case with injected repeated names
+	wide   bool     // type drawn from the wider universe (GenTypeEx: byte slices/arrays, format tags)
+	fmtTag bool     // the type has format tags: every call gets ExperimentalSupportFormatTag(true)
+	inMod  bool     // the type is in the Lean model's universe: correspondence lines are sent
 	want   []string // corpus: expected per step ("" = unchecked)
 
 	steps  []c14Step
@@ -207,6 +224,9 @@ func (w *c14Worker) flushHits() {
 
 // unmarshal calls the library under guard; pan reports a library panic (already reported).
 func (w *c14Worker) unmarshal(cs *c14Case, text []byte, ptr reflect.Value, o int, what string) (err error, pan bool) {
+	if cs.fmtTag {
+		o |= 8
+	}
 	if p := guard(func() { err = json.Unmarshal(text, ptr.Interface(), c14Opts(o)...) }); p != nil {
 		w.c.Panic("Unmarshal", cs.input(), p, cs.detail(map[string]any{"call": what, "text": string(text)}))
 		return nil, true
@@ -406,6 +426,126 @@ func (w *c14Worker) dupPredicates(cs *c14Case, i int, prior reflect.Value) bool 
 	return true
 }
 
+// genWide draws the type from the wider universe of GenTypeEx (byte slices and byte arrays in their
+// string and array representations, named byte element types, format tags), which the Lean model
+// does not cover: such a case runs every predicate that is evaluated on the implementation alone
+// (merge law with the Go merge, the four clauses, the byte-array reference check) and no
+// correspondence.  The length-relaxing option is on in half of the cases, FormatByteArrayAsArray
+// in a quarter; chains of 2..4 texts so that destinations are pre-populated.
+func (w *c14Worker) genWide() *c14Case {
+	var t *TypeDesc
+	for tries := 0; ; tries++ {
+		t = GenTypeEx(w.r, 1+w.r.IntN(3), true)
+		if !t.InModel() || tries > 8 {
+			break
+		}
+	}
+	cs := &c14Case{t: t, wide: true, fmtTag: t.HasFormat()}
+	if w.r.IntN(2) == 0 {
+		cs.o |= 1
+	}
+	if w.r.IntN(4) == 0 {
+		cs.o |= 4
+	}
+	k := 2 + w.r.IntN(3)
+	if w.r.IntN(4) != 0 {
+		k = 2 + w.r.IntN(2)
+	}
+	for i := 0; i < k; i++ {
+		cs.texts = append(cs.texts, GenJSONForBytes(w.r, cs.t, 3, cs.o&4 != 0))
+	}
+	return cs
+}
+
+// bytesRef is the reference check of the array clause for byte arrays and byte slices in their
+// STRING representation, wherever they sit in the value just unmarshaled from j (root, struct
+// fields, map entries, pointers, elements): the destination holds exactly the decoded bytes —
+// a [N]byte the first N of them followed by zeros, whatever it held before; a []byte exactly
+// them.  The decoding is done independently with the standard library.
+func (w *c14Worker) bytesRef(cs *c14Case, after reflect.Value, t *TypeDesc, j *JNode, path string) string {
+	if j == nil || j.Kind == 'n' {
+		return ""
+	}
+	switch t.Kind {
+	case TKSlice, TKArray:
+		if f, ok := t.BytesAsString(cs.o&4 != 0); ok {
+			if j.Kind != '"' {
+				return ""
+			}
+			b, err := DecodeBytesFormat(f, j.Lit)
+			if err != nil {
+				return path + ": the call succeeded on a string the reference decoder rejects: " + err.Error()
+			}
+			w.hit("bytes-ref-checked")
+			if t.Kind == TKSlice {
+				if after.IsNil() || !bytes.Equal(after.Bytes(), b) {
+					return fmt.Sprintf("%s: []byte holds %x, decoded input is %x", path, after.Bytes(), b)
+				}
+				return ""
+			}
+			if len(b) != t.N {
+				if cs.o&1 == 0 {
+					return fmt.Sprintf("%s: %d decoded bytes accepted into [%d]byte without UnmarshalArrayFromAnyLength", path, len(b), t.N)
+				}
+				if len(b) < t.N {
+					w.hit("bytes-ref-short")
+				} else {
+					w.hit("bytes-ref-long")
+				}
+			}
+			want := make([]byte, t.N)
+			copy(want, b)
+			got := make([]byte, t.N)
+			reflect.Copy(reflect.ValueOf(got), after)
+			if !bytes.Equal(got, want) {
+				return fmt.Sprintf("%s: [%d]byte holds %x, want decoded input + zero fill %x", path, t.N, got, want)
+			}
+			return ""
+		}
+		if j.Kind != '[' {
+			return ""
+		}
+		for i, e := range j.Elems {
+			if i >= after.Len() {
+				break
+			}
+			if d := w.bytesRef(cs, after.Index(i), t.Elem, e, fmt.Sprintf("%s[%d]", path, i)); d != "" {
+				return d
+			}
+		}
+	case TKPtr:
+		if !after.IsNil() {
+			return w.bytesRef(cs, after.Elem(), t.Elem, j, path)
+		}
+	case TKStruct:
+		if j.Kind != '{' {
+			return ""
+		}
+		for i, f := range t.Fields {
+			if m, cnt := j.Member(f.Name); cnt == 1 {
+				if d := w.bytesRef(cs, after.Field(i), f.Type, m, path+"."+f.Name); d != "" {
+					return d
+				}
+			}
+		}
+	case TKMap:
+		if j.Kind != '{' || after.IsNil() {
+			return ""
+		}
+		for i, name := range j.Names {
+			if _, cnt := j.Member(name); cnt != 1 {
+				continue
+			}
+			if e := after.MapIndex(reflect.ValueOf(name)); e.IsValid() {
+				if d := w.bytesRef(cs, e, t.Elem, j.Elems[i], fmt.Sprintf("%s[%q]", path, name)); d != "" {
+					return d
+				}
+			}
+		}
+	}
+	return ""
+}
+
 func c14JoinArray(elems [][]byte) []byte {
 	b := []byte{'['}
 	for i, e := range elems {
@@ -576,7 +716,9 @@ func (w *c14Worker) phaseA(cs *c14Case, lines *[]string) bool {
 	}
 	gt := cs.t.GoType()
 	tw := cs.t.Wire()
-	if w.or != nil && !w.types[tw] {
+	cs.inMod = cs.t.InModel()
+	useOr := w.or != nil && cs.inMod
+	if useOr && !w.types[tw] {
 		if len(w.types) > 50000 {
 			w.types = map[string]bool{}
 		}
@@ -613,6 +755,12 @@ func (w *c14Worker) phaseA(cs *c14Case, lines *[]string) bool {
 		if d := w.kept(before, v.Elem(), cs.t, cs.nodes[i], "$"); d != "" {
 			w.violate("unmentioned-kept", cs, map[string]any{"step": i + 1, "mismatch": d,
 				"before": ValueWire(before, cs.t), "after": ValueWire(v.Elem(), cs.t)})
+		}
+		if cs.wide {
+			if d := w.bytesRef(cs, v.Elem(), cs.t, cs.nodes[i], "$"); d != "" {
+				w.violate("bytes-overwrite", cs, map[string]any{"step": i + 1, "mismatch": d,
+					"before": ValueWire(before, cs.t), "after": ValueWire(v.Elem(), cs.t)})
+			}
 		}
 		if cs.clause != nil {
 			w.clauseStep(cs, i, v.Elem(), nil)
@@ -662,7 +810,7 @@ func (w *c14Worker) phaseA(cs *c14Case, lines *[]string) bool {
 				}
 			}
 		}
-		if w.or != nil {
+		if useOr {
 			m.li = add("arsh merge " + cs.trees[i] + " " + cs.trees[i+1])
 		}
 		cs.merges = append(cs.merges, m)
@@ -676,7 +824,7 @@ func (w *c14Worker) phaseA(cs *c14Case, lines *[]string) bool {
 		if len(cs.steps) == k && cs.steps[k-1].ok {
 			m.seqOK, m.seqVal, m.seqWire = true, cs.snaps[k-1], cs.steps[k-1].wire
 		}
-		if w.or != nil {
+		if useOr {
 			m.li = add("arsh mergeall " + strconv.Itoa(k) + " " + strings.Join(cs.trees, " "))
 		}
 		cs.merges = append(cs.merges, m)
@@ -690,8 +838,8 @@ func (w *c14Worker) phaseA(cs *c14Case, lines *[]string) bool {
 	}
 
 	// oracle lines for (1)
-	if w.or != nil {
-		cs.liCh = add(fmt.Sprintf("arsh chain %d %s %d %s", cs.o, tw, k, strings.Join(cs.trees, " ")))
+	if useOr {
+		cs.liCh = add(fmt.Sprintf("arsh chain %d %s %d %s", cs.o&3, tw, k, strings.Join(cs.trees, " ")))
 		zw := ValueWire(zero, cs.t)
 		for i := range cs.steps {
 			if cs.name == "" && w.r.IntN(3) != 0 {
@@ -705,7 +853,7 @@ func (w *c14Worker) phaseA(cs *c14Case, lines *[]string) bool {
 				continue
 			}
 			cs.unmAt = append(cs.unmAt, i)
-			cs.liUnm = append(cs.liUnm, add(fmt.Sprintf("arsh unm %d %s %s %s", cs.o, tw, cs.trees[i], prior)))
+			cs.liUnm = append(cs.liUnm, add(fmt.Sprintf("arsh unm %d %s %s %s", cs.o&3, tw, cs.trees[i], prior)))
 		}
 	}
 	return true
@@ -1213,6 +1361,9 @@ func (w *c14Worker) phaseB(cs *c14Case, ans []string) {
 	if cs.dup {
 		kind = "dup"
 	}
+	if cs.wide {
+		kind = "wide"
+	}
 	if cs.name != "" {
 		kind = "corpus"
 	}
@@ -1289,11 +1440,13 @@ func (w *c14Worker) run(n int, sample bool) {
 		for i := 0; i < b; i++ {
 			var cs *c14Case
 			switch x := w.r.IntN(100); {
-			case x < 62:
+			case x < 52:
 				cs = w.genRand()
-			case x < 74:
+			case x < 64:
 				cs = w.genDup()
-			case x < 87:
+			case x < 76:
+				cs = w.genWide()
+			case x < 88:
 				cs = w.genClause("slice")
 			default:
 				cs = w.genClause("array")
@@ -1420,6 +1573,8 @@ func runC14(c *Ctx) {
 	var wg sync.WaitGroup
 	var mu sync.Mutex
 	var failure any
+	// 16 logical workers (fixed case streams), of which at most 4 run at a time in the quick tier
+	sem := make(chan struct{}, c.N(4, c14Workers))
 	for i := 0; i < c14Workers; i++ {
 		share := n / c14Workers
 		if i < n%c14Workers {
@@ -1437,6 +1592,8 @@ func runC14(c *Ctx) {
 					mu.Unlock()
 				}
 			}()
+			sem <- struct{}{}
+			defer func() { <-sem }()
 			w := newC14Worker(c, c.SubRng(uint64(i)))
 			w.run(share, i == 0)
 		}(i, share)
